@@ -333,7 +333,7 @@ class H5DataV3(DataSet):
         self._flags = data_group['flags'] if 'flags' in data_group else \
             dummy_dataset('dummy_flags', shape=self._vis.shape[:-1], dtype=np.uint8, value=0)
         # Obtain flag descriptions from file or recreate default flag description table
-        self._flags_description = data_group['flags_description'] if 'flags_description' in data_group else \
+        self._flags_description = to_str(data_group['flags_description'][:]) if 'flags_description' in data_group else \
             np.array(list(zip(FLAG_NAMES, FLAG_DESCRIPTIONS)))
         self._flags_select = np.array([0], dtype=np.uint8)
         self._flags_keep = 'all'
@@ -346,7 +346,7 @@ class H5DataV3(DataSet):
         self._weights_channel = data_group['weights_channel'] if 'weights_channel' in data_group else \
             dummy_dataset('dummy_weights_channel', shape=self._vis.shape[:-2], dtype=np.float32, value=1.0)
         # Obtain weight descriptions from file or recreate default weight description table
-        self._weights_description = data_group['weights_description'] if 'weights_description' in data_group else \
+        self._weights_description = to_str(data_group['weights_description'][:]) if 'weights_description' in data_group else \
             np.array(list(zip(WEIGHT_NAMES, WEIGHT_DESCRIPTIONS)))
         self._weights_select = []
         self._weights_keep = 'all'
